@@ -39,13 +39,15 @@ func checkC17(c *Ctx) {
 	c.Rule("C17-R2", "CanDisplay's success predicate is the negation of encodeRune's failure predicate; ACS lookup independent of checkFallbacks, fallback lookup dependent on it")
 	c.Rule("C17-R3", "vtACSNames maps the 32 terminfo(5) acsc letters to the right Rune constants (which are the right Unicode characters); buildAcsMap brackets glyphs with EnterAcs/ExitAcs and walks AltChars in pairs including the last")
 	c.Rule("C17-R4", "getCharset: LC_ALL, then LC_CTYPE, then LANG; POSIX and C mean US-ASCII")
-	c.Rule("C17-R5", "the fallback map is consulted by direct lookup only and never copied after construction")
+	c.Rule("C17-R9", "cell content reaches the charset encoder one rune at a time through encodeRune, called by drawCell only with the runes GetContent returned (the failure test - empty output or a leading SUB - is a test of one rune's output)")
+	c.Expect("C17-R9", 3)
+	c.Rule("C17-R5", "the fallback map is consulted by direct lookup only and never copied after construction; it is seeded where it is made (before the application holds the screen) and afterwards changed one entry at a time by Register/Unregister only")
 	c.Rule("C17-R6", "RegisterEncoding and GetEncoding apply the same name normalisation under the registry lock; GetEncoding returns nil only when no fallback is configured")
 	c.Rule("C17-R8", "the charset registration table: every name is registered with the encoding object of the same name (names compared without case and punctuation); every alias points at a registered name with the same digits/letters core")
 	c.Expect("C17-R8", 25)
 	c.Rule("C17-R7", "the buffer the charset encoder writes into has a constant size of at least 4 bytes in encodeRune and CanDisplay (not sized by the rune's UTF-8 length)")
 	c.Expect("C17-R7", 2)
-	for r, n := range map[string]int{"C17-R1": 3, "C17-R2": 3, "C17-R3": 32 + 31 + 3, "C17-R4": 3, "C17-R5": 1, "C17-R6": 3} {
+	for r, n := range map[string]int{"C17-R1": 3, "C17-R2": 3, "C17-R3": 32 + 31 + 3, "C17-R4": 3, "C17-R5": 2, "C17-R6": 3} {
 		c.Expect(r, n)
 	}
 	p := c.P("linux")
@@ -162,6 +164,48 @@ func checkC17(c *Ctx) {
 		}
 	}
 	c.Check(len(bad) == 0 && n >= 4, "C17-R5", "fallback:direct-lookups-only", "-", fmt.Sprintf("%d uses of t.fallback; uses other than lookup/update/delete: %v", n, bad))
+	// the table's writers: the constructor seeds it (in the function that makes the map, i.e. before the
+	// application can hold the screen), Register adds one entry, Unregister deletes one.  A later bulk
+	// insertion (seeding moved into Init, say) brings back what the application unregistered in between.
+	{
+		badW := ""
+		nW := 0
+		for _, fn := range p.modFns {
+			if fn.Pkg != p.Tcell {
+				continue
+			}
+			makes := false
+			for _, st := range storesTo(fn, "tcell.tScreen", "fallback") {
+				if _, ok := st.Val.(*ssa.MakeMap); ok {
+					makes = true
+				}
+			}
+			for _, ld := range loadsOf(fn, "tcell.tScreen", "fallback") {
+				for _, r := range referrers(ld) {
+					mu, ok := r.(*ssa.MapUpdate)
+					if !ok {
+						continue
+					}
+					nW++
+					inLoop := false
+					for _, body := range loopsOf(fn) {
+						if body[mu.Block()] {
+							inLoop = true
+						}
+					}
+					switch {
+					case makes:
+						// seeding at construction
+					case fn.Name() == "RegisterRuneFallback" && !inLoop:
+					default:
+						badW += fmt.Sprintf("%s inserts into the table at %s (in a loop: %v) although it did not create it; ", fn.Name(), p.pos(mu.Pos()), inLoop)
+					}
+				}
+			}
+		}
+		c.Check(badW == "" && nW >= 2, "C17-R5", "fallback:writers", "-", fmt.Sprintf("%d insertions: seeding where the map is made, one entry in RegisterRuneFallback %s", nW, badW))
+	}
+	c.asRule("C09-R4", "C17-R9", func() { c09Payload(c, p) })
 	c17Registry(c, p)
 	c17Table(c, p)
 }
